@@ -5,6 +5,7 @@ usage: confirm_seeds.py <src-dir with Cxx.out/> [ID ...]"""
 import json, os, shutil, subprocess, sys, pathlib, re
 
 SRC = pathlib.Path(sys.argv[1])
+OFFSET = int(os.environ.get("SEED_OFFSET", "0"))     # numbering offset for later rounds
 ONLY = set(sys.argv[2:])
 VERIF = pathlib.Path("/verif")
 SCR = pathlib.Path("/tmp/seedchk")
@@ -24,6 +25,12 @@ def confirm(pid, i, patch, demo):
     res = {"applies": False}
     try:
         a = sh(f"git -C {wt} apply {patch}")
+        if a.returncode != 0:
+            a = sh(f"git -C {wt} apply --3way {patch}")
+            if a.returncode == 0:
+                # keep the rebased form of the patch for later use
+                sh(f"git -C {wt} diff HEAD > {patch}.rebased")
+                res["rebased"] = True
         res["applies"] = a.returncode == 0
         if not res["applies"]:
             res["apply_error"] = a.stderr[-400:]
@@ -49,6 +56,8 @@ def confirm(pid, i, patch, demo):
 def detect(pid, patch):
     out = {}
     assert sh("git -C /repo status --short").stdout.strip() == "", "repo not clean"
+    if pathlib.Path(str(patch) + ".rebased").exists():
+        patch = pathlib.Path(str(patch) + ".rebased")
     a = sh(f"git -C /repo apply {patch}")
     if a.returncode:
         return {"error": a.stderr}
@@ -83,14 +92,16 @@ for od in sorted(SRC.glob("C*.out")):
         det = detect(pid, patch) if ok else {}
         caught = [c for c, v in det.items() if v.get("exit") == 1 and any(l.startswith("VIOLATION") for l in v["lines"])]
         print("   detected by:", caught, flush=True)
-        dst = VERIF / "seeded" / f"{pid}-{i}"
+        n = i + OFFSET
+        dst = VERIF / "seeded" / f"{pid}-{n}"
         if not ok:
-            (VERIF / "seeded" / f"rejected-{pid}-{i}.json").write_text(json.dumps(res, indent=1))
+            (VERIF / "seeded" / f"rejected-{pid}-{n}.json").write_text(json.dumps(res, indent=1))
             continue
         dst.mkdir(parents=True, exist_ok=True)
-        shutil.copy(patch, dst / "patch.diff")
+        rb = pathlib.Path(str(patch) + ".rebased")
+        shutil.copy(rb if rb.exists() else patch, dst / "patch.diff")
         shutil.copy(demo, dst / "demo.py")
         m = json.loads(meta.read_text()) if meta.exists() else {}
-        m.update({"id": f"{pid}-{i}", "confirmed": res, "checks_run": det, "detected_by": caught,
-                  "how_to_replay": f"git -C /repo apply /verif/seeded/{pid}-{i}/patch.diff && (cd /verif && ./check {pid}); git -C /repo checkout -- ."})
+        m.update({"id": f"{pid}-{n}", "confirmed": res, "checks_run": det, "detected_by": caught,
+                  "how_to_replay": f"git -C /repo apply /verif/seeded/{pid}-{n}/patch.diff && (cd /verif && ./check {pid}); git -C /repo checkout -- ."})
         (dst / "meta.json").write_text(json.dumps(m, indent=1))
